@@ -44,6 +44,9 @@ fn registry() -> Vec<PartDesc> {
     v.push(desc::<props::c17::C17Fsm>("exploration"));
     v.push(desc::<props::c17::C17FsmX>("exploration"));
     v.push(desc::<props::c17::C17Adv>("exploration"));
+    v.push(desc::<props::c18::C18Elect>("exploration"));
+    v.push(desc::<props::c18::C18Table>("exploration"));
+    v.push(desc::<props::c18::C18Dup>("exploration"));
     #[cfg(not(feature = "v2"))]
     v.push(foreign("C16", "e1-v2", "v2", "exploration"));
     #[cfg(feature = "async-trait")]
